@@ -361,6 +361,21 @@ class World:
                          args, kwargs, node)
         return obj
 
+    def _assigned_in_class(self, cls, name):
+        seen, todo = set(), [cls]
+        while todo:
+            c = todo.pop()
+            if c is None or c.name in seen or c.node is None:
+                continue
+            seen.add(c.name)
+            for n in ast.walk(c.node):
+                if isinstance(n, ast.Attribute) and n.attr == name and \
+                        isinstance(n.ctx, ast.Store) and \
+                        isinstance(n.value, ast.Name) and n.value.id == 'self':
+                    return True
+            todo.extend(self.class_by_name(b, c.module) for b in c.bases)
+        return False
+
     def local_class(self, node, fr, it):
         return ClassRef(node.name, tuple(ast.unparse(b).split('.')[-1]
                                          for b in node.bases),
@@ -385,6 +400,18 @@ class World:
                                self_obj=obj, owner=owner)
             if isinstance(m, ast.Assign):
                 return it.eval(m.value, Frame(module=owner.module))
+            if name in ('items', 'keys', 'values') and \
+                    'Mapping' in obj.cls.mro_names(self):
+                # collections.abc.Mapping mixin: derived from the class's
+                # own __iter__ / __getitem__
+                return BoundMethod(obj, 'mapping-mixin:' + name)
+            if self._assigned_in_class(obj.cls, name):
+                # an instance field the contract does not describe but some
+                # method of the class stores: the object may have any
+                # history, so the field holds an ARBITRARY value
+                v = TVal.fresh('%s.%s' % (obj.cls.name, name))
+                obj.fields[name] = v
+                return v
             raise Unsupported('no attribute %s on %r' % (name, obj))
         if isinstance(obj, SuperProxy):
             owner, m = self.find_method_after(obj.obj.cls, obj.after, name)
@@ -419,6 +446,16 @@ class World:
         raise Unsupported('attribute store .%s on %r' % (name, obj))
 
     def method_model(self, obj, name, args, kwargs, it, node):
+        if name.startswith('mapping-mixin:') and isinstance(obj, ObjVal):
+            what = name.split(':')[1]
+            keys = it.concrete_items(it.call(self.attr_model(
+                obj, '__iter__', it), [], {}, node))
+            if what == 'keys':
+                return tuple(keys)
+            get = self.attr_model(obj, '__getitem__', it)
+            vals = [it.call(get, [k], {}, node) for k in keys]
+            return tuple(vals) if what == 'values' else tuple(
+                zip(keys, vals))
         for m in self.method_models:
             r = m(obj, name, args, kwargs, it, node)
             if r is not NotImplemented:
